@@ -79,7 +79,7 @@ def merge_security_v2_CertificateV2Value_body : List (List Char × Decl Schema) 
     ("__abstractmethods__".toList, .other),
     ("_abc_impl".toList, .other),
     ("_encoded_fields".toList, .other)]
-def merge_security_v2_CertificateV2Value_fields : List (List Char × Schema) := [("_signer".toList, .marker), ("_sig_cover_part".toList, .marker), ("_sig_value_buf".toList, .marker), ("_shrink_len".toList, .marker), ("_sig_cover_start".toList, .marker), ("name".toList, (.name 7)), ("meta_info".toList, (.model 20 [(.uint 24 none), (.uint 25 none), (.bytes 26 false)] false)), ("content".toList, (.bytes 21 false)), ("signature_value".toList, (.bytes 23 false)), ("signature_info".toList, (.model 22 [(.uint 27 (some 1)), (.model 28 [(.name 7), (.bytes 29 false)] false), (.uint 38 none), (.uint 40 none), (.uint 42 none), (.model 253 [(.bytes 254 false), (.bytes 255 false)] false), (.model 258 [(.repeated (.model 512 [(.bytes 513 false), (.bytes 514 false)] false))] false)] true))]
+def merge_security_v2_CertificateV2Value_fields : List (List Char × Schema) := [("_signer".toList, .marker), ("_sig_cover_part".toList, .marker), ("_sig_value_buf".toList, .marker), ("_shrink_len".toList, .marker), ("_sig_cover_start".toList, .marker), ("name".toList, (.name 7)), ("meta_info".toList, (.model 20 [(.uint 24 none), (.uint 25 none), (.bytes 26 false)] false)), ("content".toList, (.bytes 21 false)), ("signature_info".toList, (.model 22 [(.uint 27 (some 1)), (.model 28 [(.name 7), (.bytes 29 false)] false), (.uint 38 none), (.uint 40 none), (.uint 42 none), (.model 253 [(.bytes 254 false), (.bytes 255 false)] false), (.model 258 [(.repeated (.model 512 [(.bytes 513 false), (.bytes 514 false)] false))] false)] true)), ("signature_value".toList, (.bytes 23 false))]
 
 /-- for every shipped class with a base class or an IncludeBase attribute the model of the metaclass yields, from
     the class namespace and the field lists of its bases, the `_encoded_fields` (names, fields, order) the library has -/
